@@ -18,7 +18,7 @@ def run(ctx):
     ctx.log('TLC: %d states, %d operation histories' % (res.distinct, len(seqs)))
     rnd = random.Random(ctx.seed)
     kinds = ['rock', 'ufs', 'aufs']
-    per = 40 if ctx.thorough else 5
+    per = 20 if ctx.thorough else 5
     out = []
 
     async def main():
